@@ -79,6 +79,12 @@ pub fn function_programs() -> Vec<String> {
         "local o = {}\nfunction o:m(...) return self, ... end\nreturn select(\"#\", o:m(1, 2))",
         "local o = {}\nfunction o:m(self2) return self2 end\nreturn o:m(5)",
         "local o = {}\nfunction o.self(self) return self end\nreturn o.self(3)",
+        "local o = {}\nfunction o:set(self, value) return self, value end\nreturn o:set(1, 2)",
+        "local o = {a = {b = {}}}\nfunction o.a.b:push(value, self) return value == o.a.b, self end\nreturn o.a.b:push(5)",
+        "local o = {}\nfunction o:m(self, self) return self end\nreturn o:m(1, 2)",
+        "local o = {}\nfunction o:v(...) local self = ... return self end\nreturn o:v(4)",
+        "local o = {}\nfunction o:w(a) local function self() return a end return self() end\nreturn o:w(6)",
+        "local o = {}\nfunction o.plain(self, value) return self, value end\nreturn o.plain(1, 2), o:plain(3)",
         "function m.f(a) return a end\nreturn 1",
         "function m:g(a) return a end\nreturn 1",
         "function t.k2(a) return a end\nfunction t:k3() return self.k end\nreturn t.k2(1), t:k3()",
@@ -111,6 +117,15 @@ pub fn method_call_programs() -> Vec<String> {
         "o:m{}",
         "(o):m(1)",
         "EI(o):m(1)",
+        "((o)):m(1)",
+        "((EI(o))):m(1)",
+        "(((EI(o)))):m()",
+        "((EI(o))).m(o, 2)",
+        "(EI(o) :: any):m(1)",
+        "({EI(o)})[1]:m(1)",
+        "t.a:m2(EI(1))",
+        "EI(t).a:m2()",
+        "t[EI(\"a\")]:m2()",
         "({v = 2, m = o.m}):m(1)",
         "s:rep(2)",
         "s:upper()",
@@ -126,7 +141,7 @@ pub fn method_call_programs() -> Vec<String> {
         for ctx in ["return @", "@\nreturn 1", "local r = @\nreturn r", "return (@)", "E1(@)", "if @ then return 1 end", "return {@}"] {
             if ctx == "@\nreturn 1" && call == "o.m(o, 1)" {}
             let body = ctx.replace('@', call);
-            out.push(prog(&format!("{}t.a.m2 = function(self) return self.b end\n{}", setup, body)));
+            out.push(prog(&format!("{}t.a = {{b = 5}}\nt.a.m2 = function(self) return self.b end\n{}", setup, body)));
         }
     }
     // shadowing of the receiver
